@@ -129,7 +129,11 @@ func cdUnknown(rng *vRand) []byte {
 func cdMessage(rng *vRand) (proto.Message, string) {
 	var m proto.Message
 	kind := ""
-	switch rng.Intn(9) {
+	switch rng.Intn(11) {
+	case 9:
+		m, kind = wrapperspb.Bool(rng.Bool()), "wrapper-bool"
+	case 10:
+		m, kind = wrapperspb.Int32(int32(rng.Intn(100))), "wrapper-int32"
 	case 0:
 		m, kind = &emptypb.Empty{}, "empty"
 	case 1:
@@ -194,9 +198,27 @@ func TestVerifCodec(t *testing.T) {
 			t.Logf("REPLAY case %d: %s: %s\n  %s", idx, sig, detail, strings.Join(lg, "\n  "))
 		}
 	}
+	// outputs returned earlier must stay what they were: (returned slice, copy of its bytes at return time)
+	type kept struct {
+		got  []byte
+		want []byte
+		idx  int64
+	}
+	var earlier []kept
 	for _, idx := range env.vCases(codecCaseCount(env)) {
 		rng := vNewRand(env.Seed, "codec", idx)
 		out.Evaluations++
+		for _, k := range earlier {
+			out.hit("C19.earlier-output-intact")
+			if !bytes.Equal(k.got, k.want) {
+				report(idx, "C19.output-aliased", "", fmt.Sprintf("the output returned for case %d (%d bytes) was modified by a later Marshal call: now %x, was %x", k.idx, len(k.want), k.got[:cdMin(len(k.got), 12)], k.want[:cdMin(len(k.want), 12)]), nil)
+				earlier = nil
+				break
+			}
+		}
+		if len(earlier) > 8 {
+			earlier = earlier[1:]
+		}
 		rec := &cdRec{inner: real}
 		c := &myCodec{protoCodec: rec}
 		if idx%20 == 19 {
@@ -261,6 +283,7 @@ func TestVerifCodec(t *testing.T) {
 			report(idx, "C19.wire-format", cls, fmt.Sprintf("Marshal output differs from FD 7F || le32(crc32c(payload)) || payload: got %d bytes prefix %x, want %d bytes prefix %x", len(got), got[:cdMin(len(got), 8)], len(want), want[:8]), lg)
 			continue
 		}
+		earlier = append(earlier, kept{got: got, want: append([]byte(nil), got...), idx: idx})
 		if rec.calls != 1 {
 			report(idx, "C19.inner-calls", "", fmt.Sprintf("inner codec invoked %d times", rec.calls), lg)
 		}
